@@ -194,8 +194,9 @@ def _write_main(crate_dir, prefix, entries, with_main, nonce=0):
         parts.append("fn main() {\n\tlet all: &[(usize, &[Atom])] = &[\n")
         for i, _t in entries:
             parts.append("\t\t(%d, %s%d),\n" % (i, prefix, i))
-        parts.append("\t];\n\tprintln!(\"nonce %d\");\n\tfor &(i, p) in all.iter() {\n" % nonce
-        parts.append("" 
+        # the nonce shows that the binary that ran was built from this very file
+        parts.append("\t];\n\tprintln!(\"nonce %d\");\n" % nonce)
+        parts.append("\tfor &(i, p) in all.iter() {\n"
                      "\t\tprintln!(\"{} ok save_len={} atoms={}\", i, pelite::pattern::save_len(p), atoms_str(p));\n\t}\n}\n")
     else:
         parts.append("fn main() {}\n")
@@ -345,7 +346,8 @@ def run_batch(items, workdir=None, timeout=600):
             live = list(ok_items)
             printed = None
             for attempt in range(2):
-                starts, ends, idxs = _write_main(okdir, "P", [(i, items[i]) for i in live], True)
+                nonce = int(time.time() * 1000000) % 1000000007 + attempt
+                starts, ends, idxs = _write_main(okdir, "P", [(i, items[i]) for i in live], True, nonce)
                 success, errs, other, tail = _cargo(okdir, "macro_ok", target, timeout)
                 res["builds"] += 1
                 if success:
@@ -354,6 +356,9 @@ def run_batch(items, workdir=None, timeout=600):
                     if p.returncode != 0:
                         violations.append("the crate of compiling invocations ran with exit code %d: %s" % (p.returncode, p.stderr.decode("utf-8", "replace")[-300:]))
                     printed = p.stdout.decode("utf-8", "replace").split("\n")
+                    if printed[0] != "nonce %d" % nonce:
+                        violations.append("stale binary: the crate of compiling invocations was not rebuilt (%s)" % printed[0][:80])
+                        printed = None
                     break
                 failed = {}
                 for (line, msg, helps) in errs:
